@@ -370,6 +370,61 @@ func c18MonValidate(s c18Scn, rej []roles.Rule, verr error) []Mon {
 	return mons
 }
 
+// c18MonIndependent: "every single requested rule" is judged on its own (a metamorphic check on
+// the real validator, independent of any notion of covering): the set of rules rejected for the
+// whole request list must be the union of the sets rejected when each request is validated alone
+// by a fresh validator against the same allow-list, and must not change when the list is reversed.
+func c18MonIndependent(mode string, allow []c18PRule, reqs []c18PRule, rej []roles.Rule) []Mon {
+	if len(reqs) < 2 {
+		return nil
+	}
+	whole := map[roles.Rule]bool{}
+	for _, r := range rej {
+		whole[r] = true
+	}
+	fresh := func(qs []c18PRule) (map[roles.Rule]bool, bool) {
+		st := NewStore(c18Scheme())
+		c18SeedRole(st, c18Scn{}, c18Role{Name: c18AllowName, Rules: allow})
+		rj, err, p := c18ValidateWith(roles.NewClusterRoleBackedValidator(st, c18AllowName), mode, c18K8sRules(qs))
+		if err != nil || p != "" {
+			return nil, false
+		}
+		m := map[roles.Rule]bool{}
+		for _, r := range rj {
+			m[r] = true
+		}
+		return m, true
+	}
+	union := map[roles.Rule]bool{}
+	for _, q := range reqs {
+		m, ok := fresh([]c18PRule{q})
+		if !ok {
+			return nil
+		}
+		for r := range m {
+			union[r] = true
+		}
+	}
+	for r := range union {
+		if !whole[r] {
+			return []Mon{{Sig: "C18:request-not-judged-on-its-own", Why: fmt.Sprintf("rule %s is rejected when its request is validated alone but not in the list %s; allow=%s", r, mustJSON(reqs), mustJSON(allow))}}
+		}
+	}
+	for r := range whole {
+		if !union[r] {
+			return []Mon{{Sig: "C18:request-not-judged-on-its-own", Why: fmt.Sprintf("rule %s is rejected in the list %s but for no request alone; allow=%s", r, mustJSON(reqs), mustJSON(allow))}}
+		}
+	}
+	rev := make([]c18PRule, 0, len(reqs))
+	for i := len(reqs) - 1; i >= 0; i-- {
+		rev = append(rev, reqs[i])
+	}
+	if m, ok := fresh(rev); ok && !reflect.DeepEqual(m, whole) {
+		return []Mon{{Sig: "C18:verdict-depends-on-request-order", Why: fmt.Sprintf("the rejected set changes when the requests %s are reversed; allow=%s", mustJSON(reqs), mustJSON(allow))}}
+	}
+	return nil
+}
+
 // ---------------------------------------------------------------- reconcile monitor
 
 type c18Res struct{ Group, Plural string }
